@@ -84,6 +84,11 @@ def t_dispatch(matype, sequential):
                     {'clause': 'the selected average receives the (warm-up sliced) input candles'})
             if sequential:
                 h.prove(ops.equal(data.n, candles.n), 'ma.sequential-series-is-not-sliced')
+            else:
+                # the single value is the one the selected average gives for the same arguments: it computes on the trailing warm-up
+                # window (the averages are called with sequential=True and do not slice themselves)
+                long_ = h.branch(ops.compare('>', candles.n, W))
+                h.prove(ops.equal(data.n, W if long_ else candles.n), 'ma.single-value-series-is-the-trailing-warm-up-window')
         h.prove(same_series, 'ma.series-argument-is-the-candle-array')
         per_ok = True if want in K.NO_PERIOD else (len(args) > 1 and ops.equal(args[1], period) is True)
         h.prove(per_ok and kw.get('source_type') == src and kw.get('sequential') is True, 'ma.same-period-source-type-and-sequential-true',
